@@ -82,3 +82,40 @@ Definition bignum_expt (fuel mf : nat) (a : big) (e : Z) : option num :=
   | Some r => Some (normalize (big_num r))
   | None => None
   end.
+
+(** ** number printing / parsing of bignums
+    sexp_write_bignum's digit loop (bignum.c:394-395): [while (!zerop(b)) data[--i] = hex_digit(fxdiv(b, base, 0))]
+    on a positive copy of the number; digits come out least significant first and are stored from
+    the end of the buffer, i.e. the result is most-significant-first.  fuel = the buffer length str_len. *)
+Definition zerop (a : list Z) : bool := forallb (fun x => x =? 0) a.
+
+Fixpoint write_loop (fuel : nat) (b : list Z) (base : Z) (acc : list Z) {struct fuel} : option (list Z) :=
+  if zerop b then Some acc
+  else match fuel with
+       | O => None
+       | S f => let '(q, r) := fxdiv b base 0 in write_loop f q base (r :: acc)
+       end.
+
+Definition write_bignum_digits (fuel : nat) (a : list Z) (base : Z) : option (list Z) :=
+  match write_loop fuel a base [] with
+  | Some [] => Some [0]            (* if (i == str_len) data[--i] = '0' *)
+  | r => r
+  end.
+
+(** sexp_read_bignum's digit loop (bignum.c:308-317): res = fxmul(res, res, base, 0) in place, then
+    fxadd(res, digit); res starts as SEXP_INIT_BIGNUM_SIZE = 2 words with data[0] = init *)
+Definition read_bignum_digits (init base : Z) (ds : list Z) : list Z :=
+  fold_left (fun res d => fxadd (fxmul res base 0) d) ds [init; 0].
+
+(** sexp_read_number's fixnum accumulation with hand-over (sexp.c:2967-2980).  [tmp] is computed
+    before the range test; in C that product can exceed 64 bits (signed overflow) exactly when the
+    first disjunct of the test is already true, so the value of tmp is then irrelevant. *)
+Fixpoint read_number_digits (base : Z) (ds : list Z) (v : Z) {struct ds} : num :=
+  match ds with
+  | [] => Fix v
+  | d :: rest =>
+      let tmp := v * base + d in
+      if (FIXMAX / base <? v) || (tmp <? v) || (tmp >? FIXMAX)
+      then normalize (Big 1 (read_bignum_digits v base ds))
+      else read_number_digits base rest tmp
+  end.
